@@ -6,18 +6,18 @@ ID = "C05"
 CLAIMED = True
 MODEL_GROUP = "browser"
 THEOREM_FILE = "Props/C05.v"
-LEVEL_TEXT = ("Coq theorems about the cache model: eviction removes exactly the expired PTR/SRV/TXT/NSEC/address "
-              "records and changes nothing else; an instance is reported by evict_expired_services exactly when a PTR "
-              "pointing to it expired or its SRV bucket became empty; a goodbye (TTL 0) leaves the record expiring "
-              "exactly 1000 ms after delivery; verify shortens the SRV records (and the addresses filed under the SRV "
-              "target as written) to now + timeout and an answer restores the TTL; every ServiceRemoved the model emits "
-              "comes from one of these sources. The history-level statement chk_C05 (removed exactly when PTR / last SRV "
-              "/ last address / verify timeout runs out, wake-up requested for that instant, never while PTR+SRV+address "
-              "have more than 1 s left, no ServiceResolved afterwards without new records) is REFUTED for the faithful "
-              "model in the two classes that stay as known findings (PTR variant expiry, expiry hidden during the PTR's "
-              "goodbye second); outside them it is checked by the monitor on "
-              "every generated history of the implementation; the spec cache chk_C05 judges against is proved to be the "
-              "model's cache for all histories. Model tied to the Rust daemon by the K6 simulation")
+LEVEL_TEXT = ("Coq theorems. History level, in the standard shape for known findings: C05_removed_only_when_true_partial - "
+              "for every history in which time does not run backwards and that is outside the executable classes "
+              "known_ptr_variant and known_srv_targets (and has no PTR with the root name as owner/target), the checker "
+              "viol_C05 run on the model's trace never reports F05_alive, i.e. the model never emits ServiceRemoved while "
+              "PTR, SRV and address of the SRV's host have more than 1 s left at every snapshot of the iteration (proof: C03 "
+              "cache invariant + spec cache = model cache carried through every step); one vm_compute witness per known "
+              "class (PTR variant, second SRV target, expiry hidden by an expiring PTR). Cache level, all states: eviction "
+              "removes exactly the expired records; expired PTRs and SRV expiry are reported under every PTR name; reports "
+              "only when true; loss of the last address reported under every browsed name; goodbye = exactly +1000 ms; "
+              "verify shortens to now + timeout and an answer restores. Timeliness (F05_dead), no-resolve-after-remove "
+              "(F05_again) and the wake-up clause are monitor-checked on every generated history, not theorems. Model tied "
+              "to the Rust daemon by the K6 simulation")
 TECHNIQUE = ("machine-checked proof in Coq (eviction / goodbye / verify specifications, refutation witnesses) + "
              "model/implementation correspondence on the simulated daemon + history-level monitor with virtual timestamps")
 LEVELS = ("K6 sim: one real daemon thread in the simulated world, timer-exact runs (run_until jumps to the wake-up the "
@@ -30,11 +30,14 @@ RULE = ("announcement / goodbye / silence histories of 1-3 instances and respond
         "or the address running out first (both must agree exactly: no hash-order dependence left), PTR delivered "
         "with and without cache-flush bit; non-trivial = at least one event")
 TRUSTED = bc.TRUSTED_COMMON
-PARTIAL = ("Exact times are statements about timer-exact schedules; on a late wake-up the monitor requires the event in "
-           "the first iteration at or after the due time. 'Live' in 'never while live' means more than 1 s of TTL left "
-           "(expires_soon convention of the crate and RFC 6762 10.1: a record in its last second is as good as gone), "
-           "so a ServiceRemoved up to 1 s before the true expiry is accepted. History-level chk_C05 is a monitor, not a "
-           "theorem (refuted in the listed classes; its liveness judgements are tied to the model by spec_tracks_model). Interface removal (C18) is outside the model.")
+PARTIAL = ("Of viol_C05's failure kinds only F05_alive (safety) is excluded by a history-level theorem. Not proved over "
+           "histories: F05_dead (removal on time: needs an invariant tying the checker's 'up' list to the model's resolved set "
+           "and the order of events inside an iteration; extra classes to exclude: expiry hidden by an expiring PTR, "
+           "stop_browse of a second PTR name of an instance), F05_again (needs: liveness only decreases without a delivery "
+           "of a record of the instance; fresh channel numbers), F05_wake (the model does not compute timers). They are "
+           "checked by the monitor on every generated history of model and implementation. 'Live' means more than 1 s of "
+           "TTL left (expires_soon convention), so a ServiceRemoved up to 1 s before the true expiry is accepted. Exact "
+           "times are statements about timer-exact schedules. Interface removal (C18) is outside the model.")
 
 project = bc.project_line
 model_input = bc.model_input_line
@@ -43,6 +46,7 @@ shrink = bc.shrink_hist
 
 KNOWN = {
     "alive:ptr-variant": "C05-ptr-variant-expiry",
+    "alive:srv-targets": "C05-second-srv-target",
     "dead:ptr-last-second": "C05-expiry-hidden-by-expiring-ptr",
 }
 
@@ -60,6 +64,7 @@ def generate(rng, tier):
         ("case", 120 * k, lambda r, i: bc.gen_special(r, i, "case")),
         ("twotypes", 60 * k, lambda r, i: bc.gen_special(r, i, "two-types")),
         ("twotypesaddr", 20 * k, lambda r, i: bc.gen_special(r, i, "two-types-addr")),
+        ("srvtargets", 30 * k, lambda r, i: bc.gen_special(r, i, "srv-targets")),
         ("ptrvar", 30 * k, lambda r, i: bc.gen_special(r, i, "ptr-variant")),
     ])
 
